@@ -139,7 +139,7 @@ def _uid(rng):
     return "%06x" % rng.getrandbits(24)
 
 
-def tmpl_qualified(rng, nodes, lits, deep=0, easy=False, n_pool=None):
+def tmpl_qualified(rng, nodes, lits, deep=0, easy=False, n_pool=None, named_props=False):
     """a parent with 2-3 sibling property shapes carrying sh:qualifiedValueShape (value shapes drawn from a
     small pool, so two siblings may name the same one), some with sh:qualifiedValueShapesDisjoint"""
     u = _uid(rng)
@@ -167,7 +167,11 @@ def tmpl_qualified(rng, nodes, lits, deep=0, easy=False, n_pool=None):
     parent["targets"]["nodes"] = rng.sample(iri_nodes, min(2, len(iri_nodes)))
     props = []
     for k in range(rng.randint(2, 3) + (1 if n_pool == 3 else 0)):
-        ps = new_shape(BNode("qp%s_%d" % (u, k)), ("pred", rng.choice(PREDS[:2])))
+        # mostly anonymous; a named one with a target of its own can be selected alone (use_shapes) while its parent is not
+        named_ps = named_props or rng.random() < 0.3
+        ps = new_shape(EX["QPS%s_%d" % (u, k)] if named_ps else BNode("qp%s_%d" % (u, k)), ("pred", rng.choice(PREDS[:2])))
+        if named_ps and (named_props or rng.random() < 0.7):
+            ps["targets"]["nodes"] = rng.sample(iri_nodes, min(2, len(iri_nodes)))
         ps["sev"] = rng.choice([None, None, SH.Warning, SH.Info])
         qmin = rng.choice([None, 0, 1, 2])
         qmax = rng.choice([None, 0, 1, 2])
@@ -556,6 +560,7 @@ def describe_case(shapes_graph, data_graph, opts, obs):
     return {
         "shapes_ttl": shapes_graph.serialize(format="turtle"),
         "data_nt": sorted(" ".join(t.n3() for t in tr) for tr in data_graph),
-        "options": {k: v for k, v in opts.items()},
+        "options": {k: (v if not isinstance(v, rdflib.Graph) else {"graph_nt": sorted(" ".join(t.n3() for t in tr) for tr in v), "prefixes": sorted((p, str(n)) for p, n in v.namespaces() if str(n).startswith("http://ex.org"))})
+                    for k, v in opts.items()},
         "observed": (obs[1], sorted(map(result_key, obs[2]), key=str)) if obs[0] == "ok" else list(obs[1:3]),
     }
